@@ -14,6 +14,7 @@ import (
 	"io"
 	"net/http"
 	"net/http/httptest"
+	"strconv"
 	"testing/iotest"
 
 	"github.com/ovh/kmip-go"
@@ -83,7 +84,7 @@ func c08OneDocument(enc string, body []byte) int {
 	}
 }
 
-func c08HTTP(c *h.Ctx) {
+func c08HTTP(c *h.Ctx) (rows []string) {
 	exec := kmipserver.NewBatchExecutor()
 	exec.Route(kmip.OperationActivate, c09HandlerFunc(func(ctx context.Context, req kmip.OperationPayload) (kmip.OperationPayload, error) {
 		return &payloads.ActivateResponsePayload{UniqueIdentifier: "x"}, nil
@@ -114,6 +115,8 @@ func c08HTTP(c *h.Ctx) {
 	bodies := []body{
 		{"good-one-item", tv.Node{Tag: 0x420078, Kind: tv.KStruct, Kids: []tv.Node{hdr(1), get(goodPl)}}, true},
 		{"good-two-items", tv.Node{Tag: 0x420078, Kind: tv.KStruct, Kids: []tv.Node{hdr(2), get(goodPl), get(goodPl)}}, true},
+		{"negative-batch-count", tv.Node{Tag: 0x420078, Kind: tv.KStruct, Kids: []tv.Node{hdr(-1), get(goodPl)}}, true},
+		{"minimal-batch-count", tv.Node{Tag: 0x420078, Kind: tv.KStruct, Kids: []tv.Node{hdr(-2147483648), get(goodPl)}}, true},
 		{"payload-is-a-text-string", tv.Node{Tag: 0x420078, Kind: tv.KStruct, Kids: []tv.Node{hdr(1), get(tv.Node{Tag: 0x420079, Kind: tv.KText, S: []byte("oops")})}}, false},
 		{"second-payload-is-a-text-string", tv.Node{Tag: 0x420078, Kind: tv.KStruct, Kids: []tv.Node{hdr(2), get(goodPl), get(tv.Node{Tag: 0x420079, Kind: tv.KText, S: []byte("oops")})}}, false},
 		{"operation-is-an-integer", tv.Node{Tag: 0x420078, Kind: tv.KStruct, Kids: []tv.Node{hdr(1), {Tag: 0x42000F, Kind: tv.KStruct, Kids: []tv.Node{{Tag: 0x42005C, Kind: tv.KInt, I: 0x12}, goodPl}}}}, false},
@@ -166,6 +169,8 @@ func c08HTTP(c *h.Ctx) {
 					c.Fail("C08/http/response-not-decodable", "the answer is not a response message: "+err.Error(), cj)
 					continue
 				}
+				rows = append(rows, c08HTTPRow(true, e.name, fmt.Sprint(len(doc)), len(doc), decodable, rec.Code, 1, c08HTTPWho(&resp, cnt.calls), cnt.calls))
+				c.IndexCase("mism_http", len(rows)-1, cj)
 				if decodable {
 					if cnt.calls != 1 || len(resp.BatchItem) != len(b.tree.Kids)-1 {
 						c.Fail("C08/http/well-formed-request-not-answered-once", fmt.Sprintf("request handler called %d times, response has %d items for %d request items", cnt.calls, len(resp.BatchItem), len(b.tree.Kids)-1), cj)
@@ -185,4 +190,116 @@ func c08HTTP(c *h.Ctx) {
 			}
 		}
 	}
+
+	// transport-level variants on one decodable and one undecodable body per encoding: what does not reach the
+	// decoding step gets an HTTP error status, no KMIP response and no handler call
+	type variant struct {
+		name, method, ctype, clen string
+		cut, extra                int
+	}
+	for _, e := range encs {
+		for _, bi := range []int{0, 4} {
+			v := tv.ToValue(bodies[bi].tree)
+			doc := e.marshal(&v)
+			var probe kmip.RequestMessage
+			decodable := e.unmarshal(doc, &probe) == nil
+			vars := []variant{
+				{"get", http.MethodGet, e.ctype, fmt.Sprint(len(doc)), 0, 0},
+				{"put", http.MethodPut, e.ctype, fmt.Sprint(len(doc)), 0, 0},
+				{"content-type-text-plain", http.MethodPost, "text/plain", fmt.Sprint(len(doc)), 0, 0},
+				{"content-type-missing", http.MethodPost, "", fmt.Sprint(len(doc)), 0, 0},
+				{"content-type-with-charset", http.MethodPost, e.ctype + "; charset=utf-8", fmt.Sprint(len(doc)), 0, 0},
+				{"content-length-not-a-number", http.MethodPost, e.ctype, "abc", 0, 0},
+				{"content-length-missing", http.MethodPost, e.ctype, "", 0, 0},
+				{"content-length-zero", http.MethodPost, e.ctype, "0", 0, 0},
+				{"content-length-negative", http.MethodPost, e.ctype, "-5", 0, 0},
+				{"content-length-over-the-limit", http.MethodPost, e.ctype, "1048577", 0, 0},
+				{"content-length-at-the-limit-body-short", http.MethodPost, e.ctype, "1048576", 0, 0},
+				{"body-shorter-than-content-length", http.MethodPost, e.ctype, fmt.Sprint(len(doc)), 5, 0},
+				{"body-longer-than-content-length", http.MethodPost, e.ctype, fmt.Sprint(len(doc)), 0, 9},
+			}
+			for _, vr := range vars {
+				body := append(append([]byte{}, doc[:len(doc)-vr.cut]...), bytes.Repeat([]byte{' '}, vr.extra)...)
+				cj := map[string]any{"leg": "http", "encoding": e.name, "body": bodies[bi].name, "variant": vr.name}
+				cnt := &c08CountingHandler{inner: exec}
+				rec := httptest.NewRecorder()
+				rq := httptest.NewRequest(vr.method, "/kmip", bytes.NewReader(body))
+				rq.Header.Del("Content-Type")
+				if vr.ctype != "" {
+					rq.Header.Set("Content-Type", vr.ctype)
+				}
+				if vr.clen != "" {
+					rq.Header.Set("Content-Length", vr.clen)
+				}
+				panicked := ""
+				func() {
+					defer func() {
+						if p := recover(); p != nil {
+							panicked = fmt.Sprint(p)
+						}
+					}()
+					kmipserver.NewHTTPHandler(cnt).ServeHTTP(rec, rq)
+				}()
+				c.Eval(fmt.Sprintf("http/%s/%s/%s", e.name, bodies[bi].name, vr.name), true)
+				c.Count("leg:http/transport-variant")
+				if panicked != "" {
+					c.Fail("C08/http/handler-panics", "ServeHTTP panicked: "+panicked, cj)
+					continue
+				}
+				out := rec.Body.Bytes()
+				nm, kind := 0, 0
+				var resp kmip.ResponseMessage
+				if e.unmarshal(out, &resp) == nil {
+					nm, kind = c08OneDocument(e.name, out), c08HTTPWho(&resp, cnt.calls)
+				}
+				if rec.Code != http.StatusOK && (nm != 0 || cnt.calls != 0) {
+					c.Fail("C08/http/refused-request-answered-or-executed", fmt.Sprintf("HTTP status %d, yet the body holds %d KMIP response(s) and the request handler ran %d time(s)", rec.Code, nm, cnt.calls), cj)
+				}
+				if nm > 1 {
+					c.Fail("C08/http/not-exactly-one-response", fmt.Sprintf("the body of the answer holds %d response messages", nm), cj)
+				}
+				rows = append(rows, c08HTTPRow(vr.method == http.MethodPost, vr.ctype, vr.clen, len(body), decodable, rec.Code, nm, kind, cnt.calls))
+				c.IndexCase("mism_http", len(rows)-1, cj)
+			}
+		}
+	}
+	return rows
+}
+
+// c08HTTPWho: who produced the response, as the model sees it: 1 the request handler (it was invoked), 2 the
+// HTTP layer's invalid-message reply (handler not invoked, single invalid-message item), 3 neither.
+func c08HTTPWho(resp *kmip.ResponseMessage, calls int) int {
+	if calls > 0 {
+		return 1
+	}
+	if c08HTTPKind(resp) == 2 {
+		return 2
+	}
+	return 3
+}
+
+// c08HTTPKind: 2 = the single invalid-message error item, 1 = any other response
+func c08HTTPKind(resp *kmip.ResponseMessage) int {
+	if len(resp.BatchItem) == 1 && resp.BatchItem[0].ResultStatus == kmip.ResultStatusOperationFailed && resp.BatchItem[0].ResultReason == kmip.ResultReasonInvalidMessage {
+		return 2
+	}
+	return 1
+}
+
+// c08HTTPRow prints one correspondence row for HttpHandler.hrow_ok.
+func c08HTTPRow(post bool, ctype, clen string, avail int, decodable bool, status, nm, kind, calls int) string {
+	ct := "CtOther"
+	switch ctype {
+	case "text/xml", "xml":
+		ct = "CtXml"
+	case "application/json", "json":
+		ct = "CtJson"
+	case "application/octet-stream", "ttlv":
+		ct = "CtTtlv"
+	}
+	cl := "None"
+	if n, err := strconv.Atoi(clen); err == nil {
+		cl = fmt.Sprintf("(Some (%d))", n)
+	}
+	return fmt.Sprintf("(mkHreq %v %s %s %d %v, (%d, %d, %d, %d))", post, ct, cl, avail, decodable, status, nm, kind, calls)
 }
